@@ -21,9 +21,12 @@
    The Pull loop (collection.go): sends the seed events, then
        for event := range emit { [commit filter, backpressure path only]; include; filter; equivalence
                                  -> continue | select { send <- change | ctx.Done } }
-   it holds at most one event, already post-processed.  include / read-mask filter / equivalence
-   look at the event only (no state), so they are one function [post : change -> option change]
-   (None = `continue`); C08 / C16 say what they compute, here they are a parameter. *)
+   it holds at most one event, already post-processed.  include / read-mask filter look at the
+   event only (no state), so they are one function [post : change -> option change]
+   (None = `continue`); C08 / C16 say what they compute, here they are a parameter.  Since /repo
+   3a50d70 a configured equivalence compares with the value last SENT for the id (a map kept by
+   the loop): that is state, not covered by [post]; the theorems with a general [post] cover
+   collections without an equivalence (the default), the equivalence itself is C08's subject. *)
 From SC Require Import Base.Prelude Excess.Change Excess.MergeExcess Excess.DropExcess Excess.ChangesAfter.
 
 Inductive pact := Publish (p : published) | Step (i : nat) | PRecv | PCancel.
